@@ -4,6 +4,7 @@ import (
 	"encoding/binary"
 	"fmt"
 	"log"
+	"math"
 	"sync"
 
 	"github.com/janelia-flyem/dvid/datastore"
@@ -467,7 +468,14 @@ func (d *Data) GetBlocks(v dvid.VersionID, start dvid.ChunkPoint3d, span int32) 
 
 	// Allocate one uncompressed-sized slice with background values.
 	blockBytes := int32(d.BlockSize().Prod()) * d.Values.BytesPerElement()
-	numBytes := blockBytes * span
+	if span < 0 {
+		return nil, fmt.Errorf("span of blocks cannot be negative (%d)", span)
+	}
+	totalBytes := int64(blockBytes) * int64(span)
+	if totalBytes < 0 || totalBytes > math.MaxInt32 || totalBytes > server.MaxDataRequest {
+		return nil, fmt.Errorf("request for %d blocks (%d bytes) exceeds the size limit", span, totalBytes)
+	}
+	numBytes := int32(totalBytes)
 
 	buf := make([]byte, numBytes, numBytes)
 	if d.Background != 0 {
